@@ -7,6 +7,12 @@ OSHAPES = ["z", "zd", "s", "sd", "c"]
 
 
 def line(d):
+    d = dict(d)
+    novos = d.pop("_novos", False)
+    if not novos and "tsc" not in d and isinstance(d.get("id"), int) and d["id"] % 4 == 3:
+        # every fourth configuration runs the OS-timer path (Instant, the default timer) on the scripted clock: 1 tick = 1 ns
+        d["tsc"] = 0
+        d["vos"] = 1
     return " ".join("%s=%s" % (k, ",".join(map(str, v)) if isinstance(v, (list, tuple)) else v) for k, v in d.items() if v is not None)
 
 
@@ -311,6 +317,10 @@ def gen_c04(tier, seed):
             d["ishape"] = i
         d["oshape"] = o
         freq = rng.choice([10 ** 12, 10 ** 9, 10 ** 6, 1000, 1, 3, 2_999_999_999, 10 ** 10])
+        if idx % 4 == 3:
+            # the OS-timer path on the scripted clock (1 tick = 1 ns): the limits below are computed for that rate
+            freq = 10 ** 9
+            d["tsc"], d["vos"] = 0, 1
         d["freq"] = freq
         d["delta"] = rng.choice([1, 1, 2, 5])
         d["q"] = rng.choice([1, 1, 1, 4, 10])
@@ -611,7 +621,7 @@ def gen_c11_e2e(tier, seed):
         f = freqs[idx % len(freqs)] if idx < 2 * len(freqs) else rng.choice(freqs + [rng.randrange(1, 10 ** rng.randrange(1, 19))])
         d = {"id": idx, "entry": rng.choice([0, 0, 1, 2]), "T": rng.choice([1, 1, 2]), "s": rng.choice([1, 3]), "n": rng.choice([2, 3, 5]),
              "freq": f, "delta": 1, "q": 1, "cbase": rng.choice([1, 1000, 10 ** 5, 10 ** 6, 2 ** 33, 2 ** 40]), "cstep": rng.choice([0, 1, 977]),
-             "cmod": rng.choice([1, 3, 7]), "seed": rng.randrange(1 << 20), "fplog": 0, "oshape": "z"}
+             "cmod": rng.choice([1, 3, 7]), "seed": rng.randrange(1 << 20), "fplog": 0, "oshape": "z", "_novos": True}
         if d["entry"] == 2:
             d["ishape"] = "s"
         out.append(line(d))
